@@ -188,7 +188,10 @@ pub fn run(ctx: &mut Ctx) {
                 ctx.tag("kind:sealed");
                 let outer = format!("{} {} {} var sv", ctx.rng.range(0, 99), ctx.rng.range(0, 99), ctx.rng.range(0, 99));
                 let attack = *ctx.rng.pick(&["#( depth #)", "#( drop #)", "#( sv #)", "#( 5 ! sv #)", "#( swap #)", "#( dup #)", "#( 1 var mv #)", "#( .s 1 #)",
-                    "#( rot #)", "#( over #)", "#( I #)", "#( depth depth + #)", "#( #( depth #) #)", "#( [ ] length depth + #)", "#( : peek depth ; peek #)", "#( : thief drop ; thief #)"]);
+                    "#( rot #)", "#( over #)", "#( I #)", "#( depth depth + #)", "#( #( depth #) #)", "#( [ ] length depth + #)", "#( : peek depth ; peek #)", "#( : thief drop ; thief #)",
+                    // blocks that have SOME items of their own, but fewer than the word needs: the rest must not come from outside
+                    "#( 2 over #)", "#( 2 swap #)", "#( 1 rot #)", "#( 1 2 rot #)", "#( 7 drop drop #)", "#( 1 over over #)", "#( 3 dup drop drop drop #)", "#( 1 2 + + #)",
+                    "#( 5 : two-over over over ; two-over #)", "#( 4 nil? swap #)", "#( 1 [ swap ] #)", "#( 9 depth over #)"]);
                 let ops = vec![Op::Eval(outer.clone()), Op::Eval(attack.to_string())];
                 correspondence(ctx, "C11", &ops);
                 let mut x = fresh();
